@@ -857,6 +857,52 @@ theorem Mach.atProcess_cfg {m m' : Mach U} {o : Api.Op} (h : m.atProcess o = som
   have h2 : m'.processRequest.w.cfg = m'.w.cfg := (safeRel.mach_processRequest m').1
   rw [← h2, ← e, h1]
 
+/-- queue and task pool of a reachable instance respect their capacities (C11) -/
+theorem ReachableOf.bounded {shape : Shape} {cfg : Config} {m : Mach U} (h : ReachableOf shape cfg m) : m.Bounded := by
+  induction h with
+  | create => exact bounded_create shape cfg
+  | feed ds rng _ ih => exact ih
+  | @step m s _ ih =>
+    rcases Mach.step_cases m s with ⟨msg, e⟩ | ⟨o, _, _, e⟩
+    · rw [e]; exact SafeRel.bounded (m := m.feed s.ds s.rng) (safeRel.fail' (m.feed s.ds s.rng).w msg) ih
+    · rw [e]; exact (safeRel.step (m.feed s.ds s.rng) o).bounded ih
+
+theorem ReachableOf.cfg_historyCap {shape : Shape} {cfg : Config} {m : Mach U} (h : ReachableOf shape cfg m) :
+    m.w.cfg.historyCap = cfg.historyCap := by rw [h.cfg_eq]; rfl
+
+/-- … and so does the instance `processRequest` takes over from `update()`, `react()`, an immediate transition -/
+theorem Mach.atProcess_bounded {m m' : Mach U} {o : Api.Op} (h : m.atProcess o = some m') (hb : m.Bounded) :
+    m'.Bounded := by
+  have hR := safeRel (U := U)
+  have hu : SafeRel m.w m.updatePasses := by
+    simp only [Mach.updatePasses]
+    wr hR [hR.tick _ _ _, hR.updatePlans _ _]
+  have hr : SafeRel m.w m.reactPasses := by
+    simp only [Mach.reactPasses]
+    wr hR [hR.react _ _ _ _ _, hR.updatePlans _ _]
+  cases o <;> simp [Mach.atProcess] at h <;> subst h
+  · exact SafeRel.bounded (m' := { m with w := m.updatePasses }) hu hb
+  · exact SafeRel.bounded (m' := { m with w := m.reactPasses }) hr hb
+  · exact (hR.mach_request m _ _ _).bounded hb
+
+/-- **The history of a processing step fits `previousTransitions`:** at most `SUBSTITUTION_LIMIT` rounds are
+approved, each with at most `COMPO_COUNT` requests (`rounds_current_le`). -/
+theorem Mach.approvedOf_stepLog_length_le (m : Mach U) (hq : m.w.requests.length ≤ m.w.cfg.queueCap) :
+    (approvedOf m.stepLog).length ≤ m.w.cfg.historyCap := by
+  have hcur : m.stepLoop.2 = approvedOf m.stepLog := by
+    obtain ⟨_, ht, hl, hc⟩ := rounds_run false m.stepStart.w.cfg.substitutionLimit m.stepStart m.stepStart.root []
+      (stepStart_sized m)
+    unfold stepLoop stepLog; rw [hc]; rfl
+  have hreq : m.stepStart.w.requests = m.w.requests := by
+    unfold stepStart World.freshControl; exact World.clearTargets_requests _
+  have := rounds_current_le false m.stepStart.w.cfg.substitutionLimit m.stepStart m.stepStart.root []
+    (by rw [hreq, stepStart_cfg]; exact hq)
+  rw [stepStart_cfg] at this
+  rw [← hcur]
+  unfold Config.historyCap stepLoop
+  rw [stepStart_cfg, Nat.mul_comm]
+  simpa using this
+
 /-! ## 6. a concrete non-trivial reachable instance -/
 
 /-- the program of Proofs/DemoMach.lean respects the activation state … -/
